@@ -657,6 +657,48 @@ theorem deliver_selects_only_executable (st : HState) (ks : List Nat) (f : List 
       have := ((C03.mem_executable st.m ks k).1 hk).2
       cases hl : lookup st.m k <;> simp [hl, canExec] at this ⊢
 
+/-- what a delivery selects is recorded pending when it returns -/
+theorem deliver_marks_selected_pending (st : HState) (ks : List Nat) (f : List Bool) (ps : List Nat)
+    (h : (hstep true st (.deliver ks f)).1 = .selected (some ps)) :
+    ∀ k ∈ ps, lookup (hstep true st (.deliver ks f)).2.m k = .pending := by
+  by_cases hh : st.held = true
+  · simp [hstep, hh] at h
+  · have hspec := C03.forExec_spec ⟨st.m, f⟩ ks
+    simp only [hstep, hh, Bool.false_eq_true, if_false] at h ⊢
+    rcases hfe : forExec ⟨st.m, f⟩ ks with ⟨o, s'⟩
+    rw [hfe] at h hspec
+    cases o with
+    | none => simp at h
+    | some qs =>
+      simp only [HRes.selected.injEq, Option.some.injEq] at h
+      subst h
+      have hnf : faulted ⟨st.m, f⟩ ks = false := by
+        cases hf : faulted ⟨st.m, f⟩ ks
+        · rfl
+        · have := hspec.1 hf; cases this
+      obtain ⟨h1, h2⟩ := hspec.2 hnf
+      simp only [Option.some.injEq] at h1
+      subst h1
+      intro k hk
+      simp only
+      rw [h2]; simp [hk]
+
+/-- **two deliveries serialized by propMutex never select the same deposit**, whatever they contain and whatever the
+    store faults: what the first selected is pending when the second one looks -/
+theorem serialized_deliveries_disjoint (st : HState) (k1 k2 : List Nat) (f1 f2 : List Bool) (p1 p2 : List Nat)
+    (h1 : (hstep true st (.deliver k1 f1)).1 = .selected (some p1))
+    (h2 : (hstep true (hstep true st (.deliver k1 f1)).2 (.deliver k2 f2)).1 = .selected (some p2)) :
+    ∀ k ∈ p1, k ∉ p2 := by
+  intro k hk1 hk2
+  have hp := deliver_marks_selected_pending st k1 f1 p1 h1 k hk1
+  have hx := deliver_selects_only_executable _ k2 f2 p2 h2 k hk2
+  rw [hp] at hx
+  rcases hx with h | h <;> cases h
+
+theorem race_PRace (m : List (Nat × Status)) (kb ka : List Nat) (o : Bool) (n : Nat) :
+    PRace m kb ka (raceOrder m kb ka o).1 (raceOrder m kb ka o).2.1 (raceOrder m kb ka o).2.2 n :=
+  ⟨o, rfl, rfl, fun _ _ => rfl⟩
+
 /-- … and at every intermediate state (the form the driver evaluates on the implementation's trace) -/
 theorem executed_final_along (st : HState) (ops : List HOp) (hi : Inv st) (hs : seqRun true st ops = true) (k : Nat) :
     finalAlong k (st.m :: (hrun true st ops).map (·.2.m)) = true := by
